@@ -46,7 +46,7 @@ import zlib
 import numpy as np
 
 from vf.modelgen import BOOL, F16, F32, F64, I32, I64, U8, make_array
-from vf.rulehosts.plant import register
+from vf.rulehosts.plant import register, scenario
 
 U32, U64 = np.dtype("uint32"), np.dtype("uint64")
 
@@ -82,6 +82,11 @@ def _sym_first(g, shape, mode, name="N"):
     return [name if mode == "named" else None] + list(shape[1:])
 
 
+_SCATTER_STATIC_SCENARIOS = [("none", "in_order"), ("indices", "permuted"), ("indices", "partial"), ("indices", "duplicate"), ("indices", "negative"),
+                             ("indices", "q3"), ("indices", "depth2"), ("indices_how", "in_order"), ("reduction", "in_order"), ("any", "permuted"),
+                             ("any", "in_order"), ("none", "in_order")]
+
+
 @register("no_op_static_scatter_nd_rule")
 def host_scatter_static(g):
     tag = "planted:scatter_static"
@@ -107,8 +112,12 @@ def host_scatter_static(g):
     g.features.add(f"{tag}:data_{dsrc}_{sym}")
 
     # one deviation from the textbook instance at a time (plus a fully random mode) so that the instance class stays frequent
-    dev = rr.pick(["none", "none", "none", "indices", "indices", "indices_how", "reduction", "reduction", "any", "any"])
-    iv = rr.pick(["permuted", "partial", "duplicate", "negative", "q3", "depth2", "in_order"]) if dev in ("indices", "any") else "in_order"
+    sc = scenario(g, _SCATTER_STATIC_SCENARIOS)
+    if sc is not None:
+        dev, iv = sc
+    else:
+        dev = rr.pick(["none", "none", "none", "indices", "indices", "indices_how", "reduction", "reduction", "any", "any"])
+        iv = rr.pick(["permuted", "partial", "duplicate", "negative", "q3", "depth2", "in_order"]) if dev in ("indices", "any") else "in_order"
     if iv == "permuted" and n < 2:
         iv = "in_order"
     if iv == "partial" and n < 2:
@@ -191,6 +200,9 @@ def host_scatter_static(g):
 
 
 # ----------------------------------------------------------------------------------------------- ScatterND (dynamic)
+host_scatter_static.strata = len(_SCATTER_STATIC_SCENARIOS)
+
+
 @register("no_op_dynamic_scatter_nd_rule")
 def host_scatter_dynamic(g):
     tag = "planted:scatter_dynamic"
